@@ -75,6 +75,13 @@ def gen_constraints(rng, col):
                     v = rng.choice([-128.0, -64.0, -8.0, 8.0, 64.0, 128.0])
                 if ftype == 'int' and rng.random() < 0.3:
                     v = int(base * rng.choice([0.5, 1.5, 2]))
+                if ftype in ('int', 'real') and rng.random() < 0.25 and abs(base) < 2 ** 30:
+                    # the extreme value lies inside the tolerance band of the bound but outside the band one gets by applying
+                    # epsilon to the data instead of to the bound (v(1-e) <= m < v/(1+e) and its mirror images, for
+                    # e = 1/2, 1/4, 1/8; dyadic multipliers keep the arithmetic exact)
+                    v = base * rng.choice([2.0, 1.75, 1.3125, 1.140625, 0.5, 0.625, 0.75, 0.78125, 0.875, 0.8828125])
+                    if ftype == 'int' and v == int(v) and rng.random() < 0.7:
+                        v = int(v)
                 if rng.random() < 0.1:
                     v = rng.choice([0, 0.0, 1, -1.5])
                 distinct = sorted(set(nn))
@@ -519,6 +526,33 @@ class C02(core.Prop):
             m = re.search(r'Constraints passing: (\d+)\nConstraints failing: (\d+)', s)
             if not m or (int(m.group(1)), int(m.group(2))) != (v.passes, v.failures):
                 fail('str-totals', 'printed totals disagree')
+            # the printed report, in every report mode and both mark sets: each constraint carries the mark of its verdict
+            saved = (v.report, v.ascii)
+            try:
+                for report in ('all', 'fields', 'records'):
+                    for asc in (False, True):
+                        v.report, v.ascii = report, asc
+                        text = str(v)
+                        tick, cross = ('OK', 'X') if asc else ('\u2713', '\u2717')
+                        shown = {}
+                        for line in text.split('\n'):
+                            for name in v.fields.keys():
+                                if line.startswith('%s: ' % name) and re.match(r'\d+ failures?  \d+ pass(es)?(  |$)', line[len(name) + 2:]):
+                                    shown[name] = line[len(name) + 2:].split('  ')[2:]
+                        for name, fr in v.fields.items():
+                            want_shown = report == 'all' or fr.failures > 0
+                            if (name in shown) != want_shown:
+                                fail('report-fields', 'report=%s: field %r %s' % (report, name, 'missing' if want_shown else 'shown'),
+                                     'report-fields:' + report)
+                                continue
+                            if not want_shown:
+                                continue
+                            want_marks = ['%s %s' % (kind, '-' if val is None else (tick if val else cross)) for kind, val in fr.items()]
+                            if [t for t in shown[name] if t] != want_marks:
+                                fail('report-marks', 'report=%s ascii=%s field %r printed %r, verdicts %r'
+                                     % (report, asc, name, shown[name], want_marks), 'report-marks')
+            finally:
+                v.report, v.ascii = saved
         except Exception as e:
             fail('report-raises', repr(e), 'report-raises:' + type(e).__name__)
         # adding a null-valued constraint changes no other verdict
